@@ -11,7 +11,7 @@ from math import pi
 
 import numpy as np
 
-from vlib import paths
+from vlib import paths, argrep
 paths.setup()
 from vlib.runner import result, HELD, VIOL, SKIP, INCO  # noqa: E402
 from vlib import refmath as rm  # noqa: E402
@@ -136,8 +136,12 @@ def run_case(case):
             F = rs.standard_normal((nth, nz))
             bz = float(pg.bz(rvals[ri], iota_all[ri], R0))
             d = -vvals[vi] * bz * dt
-            got = F.copy()
-            op.step(got, vi, ri)
+            rep = argrep.kinds(2)[(ri * nv + vi + case.get("seed", 0)) % len(argrep.kinds(2))]
+            held = argrep.view_of(F, rep)      # the caller's array: fresh C-contiguous, Fortran-ordered, a window / stride / plane of a larger block
+            op.step(held, vi, ri)
+            got = np.array(held)
+            ev["arguments_not_c_contiguous"] = ev.get("arguments_not_c_contiguous", 0) + int(rep != "c")
+            cls.add("%s/argument-%s" % (base, rep))
             ref, leb, amax = ref_step(F, thetaref, eta[1], nz, dz, d, float(iota_all[ri]), R0)
             fmax = float(np.abs(F).max())
             tol = C * rm.EPS * thetaref.kappa * fmax * (leb * (2 + abs(d) / dz) + leb * amax * 2 * deg * deg / dth)
